@@ -1,6 +1,7 @@
 import Milhouse.Model.Ssz
 import Milhouse.Spec.Merkle
 import Milhouse.Exec.Sha256
+import Std.Data.HashMap
 /-!
 # Concrete instantiation used by the driver
 
@@ -76,19 +77,18 @@ def varKind : Elem V Hh where
   enc := fun v => v.toList
   dec := fun bs => if bs.length ≤ 8 then some (ByteArray.mk bs.toArray) else none
 
-/-- element that is itself a `List<u64, U16>` (0..16 values, 8 bytes each): root =
-mix_in_length(merkleize(pack(values), limit = 4 chunks), n). -/
+/-- element that is itself a `List<u64, U1024>` (0..1024 values, 8 bytes each): root =
+mix_in_length(merkleize(pack(values), limit = 256 chunks), n). Hashing it forks with rayon. -/
 def nestKind : Elem V Hh where
   pf := none
   leafHash := fun v =>
-    let chunk (i : Nat) : ByteArray := padTo32 (v.extract (32 * i) (min v.size (32 * (i + 1))))
-    let root := Sha256.hash32Concat (Sha256.hash32Concat (chunk 0) (chunk 1))
-      (Sha256.hash32Concat (chunk 2) (chunk 3))
-    mixIn root (v.size / 8)
+    let nchunks := (v.size + 31) / 32
+    let chunks := (List.range nchunks).map (fun i => padTo32 (v.extract (32 * i) (min v.size (32 * (i + 1)))))
+    mixIn (Spec.merk alg 8 chunks) (v.size / 8)
   packHash := fun _ => zero32
   fixedLen := none
   enc := fun v => v.toList
-  dec := fun bs => if bs.length % 8 = 0 ∧ bs.length / 8 ≤ 16 then some (ByteArray.mk bs.toArray) else none
+  dec := fun bs => if bs.length % 8 = 0 ∧ bs.length / 8 ≤ 1024 then some (ByteArray.mk bs.toArray) else none
 
 def kindOf (name : String) : Option (Elem V Hh) :=
   match name with
